@@ -130,14 +130,22 @@ def run(ctx):
             if far[1] != "false" or far[2] != "false":
                 bad.append(("ext-far", far[0], far, None))
         getbad = [(o, r) for o, r in ext["get"].items() if r[0] == "PANIC" or int(r[1]) != o]
+        # the extended tables' get(): on every value of GLOp / CLOp the entry with that number and (by the enumeration's Debug name) that name
+        for tn, key, lk in (("glsl", "get_glsl", "lookup_glsl"), ("opencl", "get_opencl", "lookup_opencl")):
+            declared = {e["opcode"]: e["name"] for e in ext[tn]}
+            for n, r in sorted(ext[key].items()):
+                if r[0] == "PANIC" or int(r[1]) != n or declared.get(n) != r[0]:
+                    getbad.append((f"{tn}:{n}", r))
+            if set(ext[key]) != set(declared):
+                getbad.append((f"{tn}:domain", (sorted(set(declared) ^ set(ext[key]))[:5], "-")))
         for tn, n, impl, ms in bad[:10]:
             ctx.issue(f"correspondence:lookup:{tn}:{n}", "lookup_opcode disagrees with the model (first entry with that opcode)",
                       witness={"table": tn, "number": n, "implementation": impl, "model": ms}, found_input=True, kind="correspondence")
         for o, r in getbad[:10]:
-            ctx.issue(f"C09:get:{o}", "CoreInstructionTable::get fails or returns another opcode's entry",
+            ctx.issue(f"C09:get:{o}", "InstructionTable::get fails or returns another opcode's entry",
                       witness={"opcode": o, "result": r}, found_input=True, kind="oracle")
         ctx.oblige("correspondence:lookup_opcode on 65536+2*4096 numbers", not bad)
-        ctx.oblige("oracle:get(op) for every table opcode", not getbad)
+        ctx.oblige("oracle:get(op) for every opcode of the core table and every value of GLOp / CLOp", not getbad)
         ctx.coverage["exhaustive"] = True
         ctx.samples = [model[3], model[9], model[65536 + 81], model[65536 + 4096 + 204]]
     elif ext is None:
